@@ -558,10 +558,17 @@ func (g *gen) template(k int) string {
 	for _, p := range m.Params {
 		sc.ints = append(sc.ints, ","+p)
 	}
-	if m.Ret == "int" {
-		return fmt.Sprintf("`(let ((%s ,@ua)) (+ %s (* %s %d) %s))", v, v, v, 2+g.r.IntN(3), g.intExpr(sc, 2))
+	// a function named with #' inside the template: (funcall #'+ ...) for (+ ...)
+	fn := func(op string) string {
+		if g.r.IntN(3) == 0 {
+			return "funcall #'" + op
+		}
+		return op
 	}
-	return fmt.Sprintf("`(let ((%s ,@ua)) (list %s (list (+ %s 1) %s) %s))", v, v, v, q("(1 2)"), g.anyExpr(sc, 2))
+	if m.Ret == "int" {
+		return fmt.Sprintf("`(let ((%s ,@ua)) (%s %s (* %s %d) %s))", v, fn("+"), v, v, 2+g.r.IntN(3), g.intExpr(sc, 2))
+	}
+	return fmt.Sprintf("`(let ((%s ,@ua)) (%s %s (list (+ %s 1) %s) %s))", v, fn("list"), v, v, q("(1 2)"), g.anyExpr(sc, 2))
 }
 
 var paramNames = [][]string{{"@a", "@b", "@c"}, {"@x", "@y", "@z"}, {"@p", "@q", "@r"}, {"@i", "@j", "@k"}}
